@@ -1,47 +1,74 @@
 #!/usr/bin/env python3
 """Run one `faults` shard to completion.
 
-A fault case can kill the process (UB check abort, allocator abort): that is itself a C17
-observation. The last flushed `CASE` line names the operation; the shard is re-run with that
+A fault case can kill the process (UB check abort, allocator / glibc abort): that is itself a
+C17 observation. The last flushed `CASE` line names the operation; the shard is re-run with that
 operation skipped (cases are deterministic) until it completes, and every death is added to the
-final report as a violation `process_died@<operation>`.
-usage: run_faults.py <out.json> <binary...> -- (the binary's args, without --skip/--out)
+final report as a violation `unsafe_after_panic@<operation>:<callback>`.
+
+Heap corruption caused by one case can surface as an abort many cases later. To keep the
+attribution honest the shard runs in two phases, each in its own processes: phase A only the
+operations that have a recorded known finding (known_findings.json), phase B all the others.
+A death in phase B therefore cannot be a delayed effect of a known finding.
+usage: run_faults.py <out.json> <binary> faults [args...]   (without --skip/--only/--out)
 """
-import json, re, subprocess, sys
+import json, os, re, subprocess, sys
 
 out = sys.argv[1]
 argv = sys.argv[2:]
-skip, deaths = [], []
-rep = None
-for attempt in range(24):
-    cmd = argv + ["--out", out, "--skip", ";".join(skip)]
-    p = subprocess.run(cmd, stdout=subprocess.PIPE, stderr=subprocess.PIPE)
-    err = p.stderr.decode("utf-8", "replace")
-    if p.returncode == 0:
-        rep = json.load(open(out))
-        break
-    cases = [l for l in err.splitlines() if l.startswith("CASE ")]
-    if not cases:
-        sys.stderr.write(err[-3000:])
+ROOT = os.path.dirname(os.path.dirname(os.path.abspath(__file__)))
+known = json.load(open(os.path.join(ROOT, "known_findings.json")))["findings"]
+known_ops = sorted({m.group(1) for k in known if k["property"] == "C17" and k["status"] == "known" for m in [re.match(r"unsafe_after_panic@(.*):\w+$", k["signature"])] if m})
+
+
+def run_phase(extra, base_skip):
+    skip, deaths, rep = list(base_skip), [], None
+    for attempt in range(24):
+        cmd = argv + ["--out", out, "--skip", ";".join(skip)] + extra
+        p = subprocess.run(cmd, stdout=subprocess.PIPE, stderr=subprocess.PIPE)
+        err = p.stderr.decode("utf-8", "replace")
+        if p.returncode == 0:
+            rep = json.load(open(out))
+            break
+        cases = [l for l in err.splitlines() if l.startswith("CASE ")]
+        if not cases:
+            sys.stderr.write(err[-3000:])
+            sys.exit(3)
+        last = cases[-1]
+        m = re.search(r"name=\[(.*?)\]", last)
+        name = m.group(1) if m else "?"
+        after = err[err.rfind(last):]
+        # the crash may be a delayed effect of an earlier case of the same phase (heap corruption
+        # detected by a later malloc): fall back to the last fuse that fired at all
+        fm = re.findall(r"FUSE cb=(\w+)", after) or re.findall(r"FUSE cb=(\w+)", err)
+        cb = fm[-1] if fm else "none"
+        tail = [l for l in err.splitlines() if not l.startswith(("CASE ", "FUSE "))][-8:]
+        deaths.append(dict(prop="C17", sig=f"unsafe_after_panic@{name}:{cb}", detail=f"process_died: the workload process died (rc={p.returncode}) in or after fault case: {last}\n" + "\n".join(tail), op=last, op_index=0))
+        if name in skip:
+            sys.stderr.write("death repeats for a skipped op: " + last + "\n")
+            sys.exit(3)
+        skip.append(name)
+    if rep is None:
+        sys.stderr.write("too many deaths\n")
         sys.exit(3)
-    last = cases[-1]
-    m = re.search(r"name=\[(.*?)\]", last)
-    name = m.group(1) if m else "?"
-    after = err[err.rfind(last):]
-    # the crash may be a delayed effect of the previous case of the same op (heap corruption
-    # detected by the next malloc): fall back to the last fuse that fired at all
-    fm = re.findall(r"FUSE cb=(\w+)", after) or re.findall(r"FUSE cb=(\w+)", err)
-    cb = fm[-1] if fm else "none"
-    tail = [l for l in err.splitlines() if not l.startswith(("CASE ", "FUSE "))][-8:]
-    deaths.append(dict(prop="C17", sig=f"unsafe_after_panic@{name}:{cb}", detail=f"process_died: the workload process died (rc={p.returncode}) in or after fault case: {last}\n" + "\n".join(tail), op=last, op_index=0))
-    if name in skip:
-        sys.stderr.write("death repeats for a skipped op: " + last + "\n")
-        sys.exit(3)
-    skip.append(name)
-if rep is None:
-    sys.stderr.write("too many deaths\n")
-    sys.exit(3)
-rep["violations"] = deaths + rep.get("violations", [])
-rep["process_deaths"] = len(deaths)
-rep["skipped_after_death_set"] = skip
+    return rep, deaths, skip
+
+
+rep_a, deaths_a, skip_a = run_phase(["--only", ";".join(known_ops)], []) if known_ops else ({"violations": []}, [], [])
+rep_b, deaths_b, skip_b = run_phase([], known_ops)
+rep = dict(rep_b)
+for k, v in rep_a.items():
+    if isinstance(v, bool):
+        continue
+    if isinstance(v, (int, float)) and isinstance(rep.get(k), (int, float)):
+        rep[k] = rep[k] + v
+    elif isinstance(v, dict) and isinstance(rep.get(k), dict):
+        for kk, vv in v.items():
+            rep[k][kk] = rep[k].get(kk, 0) + vv if isinstance(vv, (int, float)) else vv
+    elif isinstance(v, list) and k.endswith("_set"):
+        rep[k] = sorted(set(rep.get(k, [])) | set(v))
+rep["violations"] = deaths_a + rep_a.get("violations", []) + deaths_b + rep_b.get("violations", [])
+rep["process_deaths"] = len(deaths_a) + len(deaths_b)
+rep["process_deaths_outside_known_ops"] = len(deaths_b)
+rep["skipped_after_death_set"] = sorted(set(skip_a) | (set(skip_b) - set(known_ops)))
 json.dump(rep, open(out, "w"))
